@@ -597,6 +597,21 @@ impl Engine for SerEngine {
                 }
             }
         }
+        // valid safetensors files laid out by another writer: header not padded to 8 bytes, an odd-sized
+        // byte tensor in front of wider element types, so tensor data starts at every alignment
+        for (dt, size) in [("F32", 4usize), ("I32", 4), ("F64", 8), ("I64", 8), ("U16", 2), ("I16", 2)] {
+            for pad in 0..8usize {
+                for lead in [0usize, 1, 3] {
+                    let mut h = format!("{{\"a\":{{\"dtype\":\"U8\",\"shape\":[{lead}],\"data_offsets\":[0,{lead}]}},\"b\":{{\"dtype\":\"{dt}\",\"shape\":[2],\"data_offsets\":[{lead},{}]}}}}", lead + 2 * size);
+                    h.push_str(&" ".repeat(pad));
+                    let mut b = (h.len() as u64).to_le_bytes().to_vec();
+                    b.extend(h.as_bytes());
+                    b.extend(std::iter::repeat(7u8).take(lead));
+                    b.extend((0..2 * size).map(|i| (i * 37 + 1) as u8));
+                    raw_specials.push((Format::SafeTensors, b, format!("safetensors {dt} after {lead} bytes, header padded by {pad}")));
+                }
+            }
+        }
         let enumerated = at + (raw_specials.len() * 2) as u64;
         SerEngine {
             corpus,
